@@ -30,6 +30,14 @@ func nondetDec(label string) Dec {
 	return d
 }
 
+// nondetDecExp: an arbitrary decimal whose exponent lies in lo..hi, one path per exponent.
+func nondetDecExp(label string, lo, hi int) Dec {
+	d := nondetDec(label)
+	zz.Assume(zz.And(int(d.dec.Exponent) >= lo, int(d.dec.Exponent) <= hi))
+	d.dec.Exponent = int32(zz.Concretize(int(d.dec.Exponent), lo, hi))
+	return d
+}
+
 // C19: Add and Sub never round, never fail within the bounds, and leave operands alone.
 func VerifHarness_C19_AddSub() {
 	x := nondetDec("x")
@@ -82,11 +90,133 @@ func VerifHarness_C19_SafeBalance() {
 // C19: conversion to integer coins truncates toward zero.
 func VerifHarness_C19_SdkIntTrim() {
 	x := nondetDec("x")
+	// one path per exponent: the divisions by powers of ten become divisions by constants
+	x.dec.Exponent = int32(zz.Concretize(int(x.dec.Exponent), zz.Bound("exp_lo", -12), zz.Bound("exp_hi", 12)))
 	xv := zz.QOf(x)
 	// SdkIntTrim documents a panic above the 256-bit range of sdk.Int
 	zz.Assume(zz.QLt(zz.QAbs(xv), zz.QPow10(76)))
 	i := x.SdkIntTrim()
-	zz.Assert(zz.QEq(zz.QOf(i), zz.QTrunc(xv)), "sdkinttrim: truncation toward zero")
+	// truncation toward zero, stated without a floor function (linear for the solver): the
+	// integer result lies between zero and x and less than one away from x
+	iv := zz.QOf(i)
+	one := zz.QInt(1)
+	pos := zz.And(zz.QLe(zz.QInt(0), xv), zz.And(zz.QLe(iv, xv), zz.QLt(xv, zz.QAdd(iv, one))))
+	neg := zz.And(zz.QLt(xv, zz.QInt(0)), zz.And(zz.QLe(xv, iv), zz.QLt(zz.QSub(iv, one), xv)))
+	zz.Assert(zz.Or(pos, neg), "sdkinttrim: truncation toward zero")
 	zz.Assert(zz.QEq(zz.QOf(x), xv), "sdkinttrim: operand unchanged")
 	zz.Reach("trim")
+}
+
+// digits34 is 10^34: decimal128 keeps 34 significant digits.
+func pow10(n int) zz.Q { return zz.QPow10(n) }
+
+// within34 states that z is x rounded to 34 significant digits: exact when x fits, and
+// otherwise no further than one unit of the 34th digit away (any rounding mode).
+func within34(z, exact zz.Q) bool {
+	// |z - exact| * 10^33 <= |exact|  <=>  relative error at most 10^-33
+	diff := zz.QAbs(zz.QSub(z, exact))
+	return zz.QLe(zz.QMul(diff, pow10(33)), zz.QAbs(exact))
+}
+
+// C19: the exact multiply returns the exact product or an error; the rounding multiply is
+// correct to 34 significant digits; neither modifies its operands.
+func VerifHarness_C19_Mul() {
+	x := nondetDecExp("x", zz.Bound("xexp_lo", -6), zz.Bound("xexp_hi", 2))
+	y := nondetDecExp("y", zz.Bound("yexp_lo", -2), zz.Bound("yexp_hi", 1))
+	xv, yv := zz.QOf(x), zz.QOf(y)
+	p := zz.QMul(xv, yv)
+	z, err := x.MulExact(y)
+	if err == nil {
+		zz.Assert(zz.QEq(zz.QOf(z), p), "mulexact: exact on success")
+		zz.Reach("mulexact ok")
+	} else {
+		zz.Reach("mulexact err")
+	}
+	w, err := x.Mul(y)
+	zz.Assert(err == nil, "mul: no error within the exponent range")
+	if err == nil {
+		zz.Assert(within34(zz.QOf(w), p), "mul: correct to 34 significant digits")
+	}
+	zz.Assert(zz.And(zz.QEq(zz.QOf(x), xv), zz.QEq(zz.QOf(y), yv)), "mul: operands unchanged")
+}
+
+// C19: the exact divide returns the exact quotient or an error; the rounding divide is
+// correct to 34 significant digits; division by zero is an error.
+func VerifHarness_C19_Quo() {
+	x := nondetDecExp("x", zz.Bound("xexp_lo", -6), zz.Bound("xexp_hi", 2))
+	y := nondetDecExp("y", zz.Bound("yexp_lo", -2), zz.Bound("yexp_hi", 1))
+	xv, yv := zz.QOf(x), zz.QOf(y)
+	z, err := x.QuoExact(y)
+	if err == nil {
+		zz.Assert(zz.Not(zz.QEq(yv, zz.QInt(0))), "quoexact: succeeds only for a non-zero divisor")
+		zz.Assert(zz.QEq(zz.QOf(z), zz.QDiv(xv, yv)), "quoexact: exact on success")
+		zz.Reach("quoexact ok")
+	} else {
+		zz.Reach("quoexact err")
+	}
+	w, err := x.Quo(y)
+	if err == nil {
+		zz.Assert(zz.Not(zz.QEq(yv, zz.QInt(0))), "quo: succeeds only for a non-zero divisor")
+		zz.Assert(within34(zz.QOf(w), zz.QDiv(xv, yv)), "quo: correct to 34 significant digits")
+	} else {
+		zz.Assert(zz.QEq(yv, zz.QInt(0)), "quo: fails only for a zero divisor")
+	}
+	zz.Assert(zz.And(zz.QEq(zz.QOf(x), xv), zz.QEq(zz.QOf(y), yv)), "quo: operands unchanged")
+}
+
+// C19: rendering is always plain notation and re-parsing the rendering gives the same
+// number.
+func VerifHarness_C19_StringRoundTrip() {
+	x := nondetDec("x")
+	xv := zz.QOf(x)
+	s := x.String()
+	zz.Assert(zz.DecPlain(s), "string: plain (non-scientific) notation")
+	y, err := NewDecFromString(s)
+	zz.Assert(err == nil, "string: the rendering parses")
+	if err == nil {
+		zz.Assert(zz.QEq(zz.QOf(y), xv), "string: re-parsing gives the same number")
+	}
+	zz.Assert(zz.QEq(zz.QOf(x), xv), "string: operand unchanged")
+	zz.Reach("string")
+}
+
+// C19: parsing yields exactly the value of the string, and the sign / scale gates reject
+// exactly what they document.
+func VerifHarness_C19_Parse() {
+	s := zz.NondetAtom("s")
+	v := zz.QParse(s)
+	d, err := NewDecFromString(s)
+	if err == nil {
+		zz.Assert(zz.QEq(zz.QOf(d), v), "parse: exactly the value of the string")
+		zz.Reach("parse ok")
+	}
+	parsed := err == nil
+	if parsed {
+		// one path per exponent of the parsed string: the scale checks become linear
+		zz.Concretize(int(d.dec.Exponent), zz.Bound("exp_lo", -12), zz.Bound("exp_hi", 12))
+	}
+	n, err := NewNonNegativeDecFromString(s)
+	zz.Assert((err == nil) == zz.And(parsed, zz.QLe(zz.QInt(0), v)), "parse: non-negative gate accepts exactly the non-negative decimals")
+	if err == nil {
+		zz.Assert(zz.QEq(zz.QOf(n), v), "parse: non-negative gate keeps the value")
+	}
+	p, err := NewPositiveDecFromString(s)
+	zz.Assert((err == nil) == zz.And(parsed, zz.QLt(zz.QInt(0), v)), "parse: positive gate accepts exactly the positive decimals")
+	if err == nil {
+		zz.Assert(zz.QEq(zz.QOf(p), v), "parse: positive gate keeps the value")
+	}
+	places := uint32(zz.Concretize(zz.NondetRange("places", 0, 12), 0, 12))
+	f, err := NewNonNegativeFixedDecFromString(s, places)
+	if err == nil {
+		zz.Assert(zz.And(parsed, zz.QLe(zz.QInt(0), v)), "parse: fixed gate accepts only non-negative decimals")
+		zz.Assert(zz.QIsInt(zz.QMul(v, zz.QPow10(int(places)))), "parse: fixed gate accepts only values with at most the given number of decimal places")
+		zz.Assert(zz.QEq(zz.QOf(f), v), "parse: fixed gate keeps the value")
+		zz.Reach("fixed ok")
+	}
+	g, err := NewPositiveFixedDecFromString(s, places)
+	if err == nil {
+		zz.Assert(zz.And(parsed, zz.QLt(zz.QInt(0), v)), "parse: positive fixed gate accepts only positive decimals")
+		zz.Assert(zz.QIsInt(zz.QMul(v, zz.QPow10(int(places)))), "parse: positive fixed gate accepts only values with at most the given number of decimal places")
+		zz.Assert(zz.QEq(zz.QOf(g), v), "parse: positive fixed gate keeps the value")
+	}
 }
